@@ -58,10 +58,13 @@ def raw_object(case):
 
 
 def fov_mask(case):
-    """2-D field-of-view mask (h, w) with values in [0, 1], or None."""
+    """Field-of-view mask with values in [0, 1], or None: 2-D (h, w), or - with mask["per_slice"] on a multislice
+    object - the 3-D form (S, h, w) the mask setter also accepts, with a different mask on every slice."""
     m = case.get("mask")
     if m is None or m["mode"] in ("none", "unset"):
         return None
+    if m.get("per_slice") and case.get("S", 1) > 1:
+        return np.stack([fov_mask(dict(case, mask=dict(m, per_slice=False, seed=m["seed"] + 7919 * s))) for s in range(case["S"])])
     rng = np.random.default_rng(m["seed"])
     shape = (case["h"], case["w"])
     mode = m["mode"]
